@@ -247,6 +247,32 @@ def run_check(prop, tier, seed, only_cases=None):
     return 1 if violations else 0
 
 
+def _repo_state(prop_id):
+    """which sources this run was tied to: HEAD, whether the working tree differs from it, and a digest of every file
+    the property is anchored in (properties.jsonl), so that a reader can tell which text the correspondence was run
+    against"""
+    import hashlib, subprocess
+    out = {}
+    try:
+        out["head"] = subprocess.run(["git", "-C", core.REPO, "rev-parse", "--short", "HEAD"], stdout=subprocess.PIPE, text=True).stdout.strip()
+        st = subprocess.run(["git", "-C", core.REPO, "status", "--porcelain", "--untracked-files=no"], stdout=subprocess.PIPE, text=True).stdout
+        out["working_tree_differs_from_head"] = [l[3:] for l in st.splitlines()][:20]
+        files = []
+        for l in open(os.path.join(core.ROOT, "properties.jsonl")):
+            p = json.loads(l)
+            if p.get("id") == prop_id:
+                files = (p.get("anchors") or {}).get("files", [])
+        dig = {}
+        for f in files:
+            fp = os.path.join(core.REPO, f)
+            if os.path.exists(fp):
+                dig[f] = hashlib.sha1(open(fp, "rb").read()).hexdigest()[:16]
+        out["anchored_files_sha1"] = dig
+    except Exception as e:     # never let bookkeeping break a check
+        out["error"] = repr(e)
+    return out
+
+
 def _evidence(prop, tier, seed, proofs, cases, violations, t0, extra, n_model, n_agree):
     seen = set()
     nontriv = 0
@@ -292,6 +318,7 @@ def _evidence(prop, tier, seed, proofs, cases, violations, t0, extra, n_model, n
         "by_profile": _histogram(cases, lambda c: c.profile),
         "by_origin": _histogram(cases, lambda c: c.origin),
     }
+    cov["implementation_under_test"] = _repo_state(prop.id)
     if prop.exhaustive_note:
         cov["exhaustive_part"] = prop.exhaustive_note.get(tier, "")
     cov.update(extra)
